@@ -1091,6 +1091,6 @@ func init() {
 		if err := json.Unmarshal(raw, &in); err != nil {
 			return nil, err
 		}
-		return runSys(in), nil
+		return runSysIsolated([]sysIn{in}, 1)[0], nil
 	}})
 }
